@@ -1,9 +1,13 @@
 ------------------------------- MODULE TokenGen ------------------------------
 (* (G) for C04: the finite case table of the reference editor, emitted by TLC  *)
 (* for replay into the real pfst.  One row per (layout, request): the abstract *)
-(* lines of the layout, the request (delete / replace / insert, statement      *)
-(* index, leading and trailing trivia mode) and the lines the reference editor *)
-(* of TokenRef.tla produces for it.  The harness concretises a line           *)
+(* lines of the layout (comment / blank / line-continuation lines around the   *)
+(* statements, statements on lines of their own or `;`-joined), the request    *)
+(* (delete / replace / insert, statement index - first, middle or last of its  *)
+(* line -, leading and trailing trivia mode incl. line numbers) and the lines  *)
+(* the reference editor of TokenRef.tla produces for it; next to it the table  *)
+(* of space counts ('+N' / '-N', N in 0..3, leading x trailing) of the option. *)
+(*   The harness concretises a line           *)
 (* [k, id, tr] as text (`# c<id>`, `s<id> = <id>  # t<id>`, empty), performs   *)
 (* the request on the real library and TLC (TokenTrace.tla) judges the result: *)
 (* the clauses of TokenLaws, and RefEdit.agree - the non-blank lines are       *)
@@ -16,15 +20,31 @@ Requests ==
   \cup {[op |-> "replace", i |-> i, lm |-> lm, tm |-> tm] : i \in 1..NStmt, lm \in LeadModes, tm \in TrailModes}
   \cup {[op |-> "insert", i |-> i, lm |-> "block", tm |-> "line"] : i \in 1..(NStmt + 1)}
 
+(* (the space counts only move empty lines: the expected non-blank lines do not *)
+(* depend on them, so they are a separate dimension - Spaces x Spaces below -   *)
+(* that the harness combines with the rows in turn)                             *)
 Expect(lines, q) ==
-  CASE q.op = "delete"  -> RefRemove(lines, q.i, q.lm, q.tm, <<>>, FALSE, FALSE)
-    [] q.op = "replace" -> RefRemove(lines, q.i, q.lm, q.tm, <<StmtLine(NewId, 0, 0)>>, FALSE, FALSE)
+  CASE q.op = "delete"  -> RefRemove(lines, q.i, q.lm, q.tm, <<>>, 0, 0, FALSE)
+    [] q.op = "replace" -> RefRemove(lines, q.i, q.lm, q.tm, <<NewId>>, 0, 0, FALSE)
     [] OTHER            -> RefInsert(lines, q.i, FALSE)
 
 Row(lay, q) == [pre |-> LinesOf(lay), req |-> q, expect |-> Expect(LinesOf(lay), q)]
 Rows == SetToSeq({Row(lay, q) : lay \in Layouts, q \in Requests})
 
-ASSUME JsonSerialize(IOEnv.OUT_FILE, Rows)
+(* a second, small table: edits that make pfst re-indent code it does not put -   *)
+(* the `elif` <-> `else:` + `if` conversion (an insertion into an orelse that is  *)
+(* an `elif`; the removal of the statement that kept an `else:` block from being *)
+(* an `elif`) - over every value of the docstr option, which says which          *)
+(* multi-line strings of the moved block may change their text, and over the     *)
+(* indentation unit.  The moved block holds a plain expression string, a real    *)
+(* docstring of a nested def, an assigned string and a string in a nested block  *)
+(* (concretised by the harness); the clauses of TokenLaws judge the result       *)
+(* (OutsideTokens.moved: every other token of the moved block is conserved).     *)
+ElifCases ==
+  {[form |-> "elif", op |-> o, docstr |-> d, ind |-> n] : o \in {"insert0", "insert1"}, d \in {"True", "False", "strict"}, n \in {2, 4}}
+  \cup {[form |-> "elseif", op |-> "delete0", docstr |-> d, ind |-> n] : d \in {"True", "False", "strict"}, n \in {2, 4}}
+
+ASSUME JsonSerialize(IOEnv.OUT_FILE, [rows |-> Rows, spaces |-> SetToSeq(SpacePairs), elifs |-> SetToSeq(ElifCases)])
 
 VARIABLE done
 Init == done = TRUE
